@@ -153,7 +153,18 @@ fn family() -> Vec<SetCase> {
                         ("r1".into(), field_lit()),
                         ("r2".into(), Expr::contains(whole(), Expr::value(1))),
                     ],
-                    _ => vec![("r0".into(), Expr::eq(field(), field_lit())), ("r1".into(), Expr::contains(Expr::Vec(vec![whole_lit()]), whole()))],
+                    _ => vec![
+                        ("r0".into(), Expr::eq(field(), field_lit())),
+                        ("r1".into(), Expr::contains(Expr::Vec(vec![whole_lit()]), whole())),
+                        // a field / an item of a call's answer, asked for again (the answer may be none, a list or anything else)
+                        ("r2".into(), Expr::Vec(vec![
+                            Expr::index(field_lit(), reval::expr::Index::Vec(1)),
+                            Expr::index(field(), reval::expr::Index::Vec(1)),
+                            Expr::index(f(Expr::value("none".to_string())), reval::expr::Index::Map("a".into())),
+                            Expr::index(f(Expr::value("none".to_string())), reval::expr::Index::Map("a".into())),
+                            Expr::index(f(Expr::value("none".to_string())), reval::expr::Index::Vec(0)),
+                        ])),
+                    ],
                 };
                 out.push(SetCase { spec: SetSpec { rules, fns, symbols: BTreeMap::new(), suspend: 0 }, inputs: vec![input.clone(), input] });
             }
@@ -219,6 +230,48 @@ pub fn run(ctx: &Ctx) {
             })
         })
         .collect();
+    let mut big = big;
+    // a ruleset with 80 cacheable functions, each called twice with one argument (every one of them is served from its
+    // own result the second time, whichever it was registered as)
+    {
+        let mut fns = BTreeMap::new();
+        let names: Vec<String> = (0..80).map(|i| format!("fn{i:02}")).collect();
+        for n in &names {
+            fns.insert(n.clone(), me::FnSpec { cacheable: true, fail_on: vec![], fail_first: 0, uncacheable_after: 0 });
+        }
+        let calls = |k: i128| Expr::Vec(names.iter().map(|n| Expr::func(n.clone(), Expr::value(k))).collect());
+        big.push(SetCase {
+            spec: SetSpec { rules: vec![("r0".to_string(), calls(1)), ("r1".to_string(), calls(1)), ("r2".to_string(), calls(2))], fns, symbols: BTreeMap::new(), suspend: 0 },
+            inputs: vec![Value::None, Value::None, Value::None],
+        });
+    }
+    // 1300 evaluations in which nothing is ever asked twice, then one in which it is: what a ruleset has seen in earlier
+    // evaluations has no bearing on the cache of this one
+    {
+        let mut fns = BTreeMap::new();
+        fns.insert("fa".to_string(), me::FnSpec { cacheable: true, fail_on: vec![], fail_first: 0, uncacheable_after: 0 });
+        let rule = Expr::Vec(vec![Expr::func("fa", Expr::reff("x")), Expr::func("fa", Expr::reff("y"))]);
+        let mut inputs: Vec<Value> = (0..1300).map(|i| crate::pool::map(&[("x", Value::Int(i)), ("y", Value::Int(i + 10_000))])).collect();
+        inputs.push(crate::pool::map(&[("x", Value::Int(5)), ("y", Value::Int(5))]));
+        inputs.push(crate::pool::map(&[("x", Value::Int(6)), ("y", Value::Int(6))]));
+        big.push(SetCase { spec: SetSpec { rules: vec![("r0".to_string(), rule)], fns, symbols: BTreeMap::new(), suspend: 0 }, inputs });
+    }
+    // user functions whose names sound like internals, called on the arguments the built-in conversions get in the same
+    // evaluation (a built-in never goes through the function table or its cache)
+    for name in ["parse_datetime", "parse_date_time", "datetime_parse", "parse_int", "parse_float", "parse_dec", "parse_duration", "cast", "convert", "lookup", "index", "call", "cache", "eval"] {
+        let mut fns = BTreeMap::new();
+        fns.insert(name.to_string(), me::FnSpec { cacheable: true, fail_on: vec![], fail_first: 0, uncacheable_after: 0 });
+        let ts = || Expr::value("2015-07-30T03:26:13Z".to_string());
+        let num = || Expr::value("12".to_string());
+        let bad = || Expr::value("not a date".to_string());
+        let f = |e: Expr| Expr::func(name, e);
+        let rules = vec![
+            ("r0".to_string(), Expr::Vec(vec![Expr::datetime(ts()), f(ts()), Expr::int(num()), f(num()), Expr::float(num()), Expr::dec(num()), Expr::duration(Expr::value(12)), f(Expr::value(12))])),
+            ("r1".to_string(), Expr::Vec(vec![f(bad()), Expr::datetime(bad())])),
+            ("r2".to_string(), Expr::Vec(vec![f(ts()), Expr::datetime(ts()), f(num()), Expr::int(num())])),
+        ];
+        big.push(SetCase { spec: SetSpec { rules, fns, symbols: BTreeMap::new(), suspend: 0 }, inputs: vec![Value::None, Value::None] });
+    }
     ctx.enumerate(
         "large-evaluations",
         big.len() as u64,
